@@ -183,6 +183,10 @@ class WMSSource(MapLayer):
         if self.coverage != other.coverage:
             return False
 
+        if self.res_range != other.res_range:
+            # each source is limited to its own min_res/max_res
+            return False
+
         if (query.dimensions_for_params(self.fwd_req_params) !=
                 query.dimensions_for_params(other.fwd_req_params)):
             return False
@@ -202,7 +206,7 @@ class WMSSource(MapLayer):
                          transparent_color_tolerance=self.transparent_color_tolerance,
                          supported_srs=self.supported_srs,
                          supported_formats=self.supported_formats,
-                         res_range=None,  # layer outside res_range should already be filtered out
+                         res_range=self.res_range,
                          coverage=self.coverage,
                          fwd_req_params=self.fwd_req_params,
                          )
